@@ -138,14 +138,14 @@ def new_db(dirpath, name="db.sqlite"):
     return path
 
 
-def observe(path, rev_index):
+def observe(path, rev_index, vt_name="alembic_version"):
     """fresh connection: alembic_version rows, sqlite_master, data rows -> model Db"""
     eng = sa.create_engine("sqlite:///" + path, poolclass=pool.NullPool)
     try:
         with eng.connect() as c:
             tabs = [r[0] for r in c.exec_driver_sql("SELECT name FROM sqlite_master WHERE type='table'")]
-            vt = "alembic_version" in tabs
-            rows = [r[0] for r in c.exec_driver_sql("SELECT version_num FROM alembic_version")] if vt else []
+            vt = vt_name in tabs
+            rows = [r[0] for r in c.exec_driver_sql("SELECT version_num FROM %s" % vt_name)] if vt else []
             data = [r[0] for r in c.exec_driver_sql("SELECT x FROM data")]
             cols = []
             for t in tabs:
@@ -157,14 +157,14 @@ def observe(path, rev_index):
         eng.dispose()
     objs = sorted([2 * int(t[2:]) for t in tabs if t.startswith("t_")] + [2 * d + 1 for d in data]
                   + [tmp_obj(int(t[len("_alembic_tmp_t_"):])) for t in tabs if t.startswith("_alembic_tmp_t_")] + cols)
-    unknown = [t for t in tabs if not t.startswith("t_") and not t.startswith("_alembic_tmp_t_") and t not in ("data", "alembic_version")]
+    unknown = [t for t in tabs if not t.startswith("t_") and not t.startswith("_alembic_tmp_t_") and t != "data" and not t.startswith("alembic_version")]
     return {"objs": objs, "rows": sorted(rev_index[r] for r in rows), "vt": vt, "unknown": unknown,
             "dup_rows": len(rows) != len(set(rows)), "dup_data": len(data) != len(set(data))}
 
 
-_V_INS = re.compile(r"INSERT INTO alembic_version \(version_num\) VALUES \('([^']*)'\)")
-_V_UPD = re.compile(r"UPDATE alembic_version SET version_num='([^']*)' WHERE alembic_version\.version_num = '([^']*)'")
-_V_DEL = re.compile(r"DELETE FROM alembic_version WHERE alembic_version\.version_num = '([^']*)'")
+_V_INS = re.compile(r"INSERT INTO alembic_version\w* \(version_num\) VALUES \('([^']*)'\)")
+_V_UPD = re.compile(r"UPDATE alembic_version\w* SET version_num='([^']*)' WHERE alembic_version\w*\.version_num = '([^']*)'")
+_V_DEL = re.compile(r"DELETE FROM alembic_version\w* WHERE alembic_version\w*\.version_num = '([^']*)'")
 
 
 def parse_version_stmt(statement, rev_index):
@@ -202,6 +202,7 @@ class Oracle:
         self.ctx_getter = None
         self.in_body = False  # statements issued by the body itself are body atoms, not version statements
         self.fired = None  # where the injected failure was raised
+        self.shift_for = {}  # engine_name -> object-number shift (several rounds on one database use disjoint objects)
         self.in_batch = False  # inside op.batch_alter_table(): its statements are counted in the cursor hook
         self.ids = [rid for rid, _ in sorted(rev_index.items(), key=lambda kv: kv[1])]
         self.tddl_seen = None
@@ -219,8 +220,10 @@ class Oracle:
         self.tddl_seen = bool(ctx.impl.transactional_ddl)
         self.steps[-1]["seen"] = [bool(ctx.impl.transactional_ddl), bool(ctx._transaction_per_migration)]
         self.in_body = True
+        shift = 2 * self.shift_for.get(engine_name, 0)
         try:
-            for seg in self.bodies[rid][direction]:
+            for seg0 in self.bodies[rid][direction]:
+                seg = seg0 if not shift else dict(seg0, stmts=[[k_, w_, e_ + shift] for k_, w_, e_ in seg0["stmts"]])
                 if seg.get("batch"):
                     import sqlalchemy as _sa
                     from alembic.operations import Operations
@@ -441,7 +444,7 @@ def make_script_dir(scratch, hist, path, template="generic", patch_env=False, na
 
 
 def run_command(cfg, bodies, rev_index, cmd, target, engine_mode, fail, configure_kw=None, hook=False, shape="stock", sql=False,
-                phases=None):
+                phases=None, shifts=None):
     """alembic.command.upgrade/downgrade through the shipped env.py (pysqlite default; with
     engine_mode == "recipe" the recipe is installed on the Engine class for the duration).
     configure_kw / hook: only with a patched env.py (see make_script_dir)."""
@@ -451,6 +454,7 @@ def run_command(cfg, bodies, rev_index, cmd, target, engine_mode, fail, configur
     from sqlalchemy.engine import Engine
 
     orc = Oracle(bodies, rev_index, fail)
+    orc.shift_for = dict(shifts or {})
     orc.ctx_getter = lambda: op.get_context()
     cfg.attributes["verif_oracle"] = orc
     kw = dict(configure_kw or {})
@@ -604,11 +608,30 @@ for name, settings in config.attributes["verif_databases"]:
 '''
 
 
-def make_twodb_dir(scratch, hist):
-    """generic script directory whose env.py is TWODB_ENV; revision functions take engine_name"""
-    cfg = make_script_dir(scratch, hist, None, template="multidb", name="twodb")
-    with open(os.path.join(scratch, "twodb", "env.py"), "w") as f:
-        f.write(TWODB_ENV)
+ROUNDS_ENV = '''# hand-written env.py: several configure()/begin_transaction()/run_migrations() rounds on ONE connection
+# (multi-tenant layout: one version table per tenant), no caller-owned transaction
+from sqlalchemy import create_engine, pool
+
+from alembic import context
+
+config = context.config
+orc = config.attributes["verif_oracle"]
+
+engine = create_engine(config.get_main_option("db.url"), poolclass=pool.NullPool)
+with engine.connect() as connection:
+    for name, settings in config.attributes["verif_databases"]:
+        context.configure(connection=connection, version_table="alembic_version_" + name,
+                          on_version_apply=orc.on_version_apply, **settings)
+        with context.begin_transaction():
+            context.run_migrations(engine_name=name)
+'''
+
+
+def make_twodb_dir(scratch, hist, layout="twodb"):
+    """generic script directory whose env.py is TWODB_ENV / ROUNDS_ENV; revision functions take engine_name"""
+    cfg = make_script_dir(scratch, hist, None, template="multidb", name=layout)
+    with open(os.path.join(scratch, layout, "env.py"), "w") as f:
+        f.write(TWODB_ENV if layout == "twodb" else ROUNDS_ENV)
     return cfg
 
 
